@@ -867,7 +867,7 @@ class Rewriter:
             op = mm.end() - 1
             cp = match_close(m, op)
             whole = code[mm.start():cp + 1]
-            pos = cp
+            pos = mm.end()
             if not ('*' in anchors or any(a in whole for a in anchors)):
                 continue
             args = split_args(code[op + 1:cp])
@@ -934,7 +934,7 @@ class Rewriter:
                 continue
             rep = 'vx::cat%d(%s)' % (len(parts), ', '.join(parts))
             code = code[:mm.start()] + rep + code[cp + 1:]
-            pos = mm.start() + len(rep)
+            pos = mm.start() + 1     # the arguments may themselves hold format! calls
             n += 1
         self.note('format!(string args)->vx::catN', n)
         return code
@@ -970,6 +970,27 @@ class Rewriter:
 
     # ---- R12: `for (IDX, X) in RECV.iter().enumerate()` whose index only feeds format! arguments (message text)
     #          -> `for X in &RECV`, the index expressions inside the messages replaced by 0usize
+    def char_indices_loops(self, code):
+        # `for (i, c) in S.char_indices() {` -> counter loop over the collected (byte offset, char) pairs
+        k_ci = 0
+        while True:
+            m_ci = mask(code)
+            mm_ci = re.search(r'(?<![A-Za-z0-9_])for\s*\(\s*([a-z_][a-z0-9_]*)\s*,\s*([a-z_][a-z0-9_]*)\s*\)\s*in\s+([A-Za-z_][A-Za-z0-9_.]*)\s*\.\s*char_indices\s*\(\s*\)\s*\{', m_ci)
+            if not mm_ci:
+                break
+            ob = mm_ci.end() - 1
+            cb = match_close(m_ci, ob)
+            i_, c_, s_ = mm_ci.group(1), mm_ci.group(2), mm_ci.group(3)
+            inner = code[ob + 1:cb]
+            if re.search(r'(?<![A-Za-z0-9_])continue(?![A-Za-z0-9_])', mask(inner)):
+                raise ExtractError('char_indices loop with `continue` cannot become a counter loop')
+            rep = ('{ let ci__ = %s.vx_char_indices(); let mut k__: usize = 0; while k__ < ci__.len() /*@auto invariant k__ <= ci__.len(); decreases ci__.len() - k__*/ '
+                   '{ let %s: usize = ci__[k__].0; let %s: char = ci__[k__].1; %s\n k__ += 1; } }' % (s_, i_, c_, inner))
+            code = code[:mm_ci.start()] + rep + code[cb + 1:]
+            k_ci += 1
+        self.note('for (i, c) in s.char_indices()->counter loop over vx_char_indices()', k_ci)
+        return code
+
     def enumerate_msg_only(self, code, force_counter=False):
         n = 0
         while True:
@@ -1071,6 +1092,7 @@ class Rewriter:
 
     def apply_all(self, code, opts):
         code = self.closure_underscore(code)
+        code = self.char_indices_loops(code)
         code = self.enumerate_msg_only(code, force_counter=bool(opts.get('counter')))
         if opts.get('fmtcat'):
             code = self.format_cat(code, opts['fmtcat'])
@@ -1091,11 +1113,81 @@ class Rewriter:
         if k_sf:
             code = re.sub(r'(?<![A-Za-z0-9_:])String::from\(', 'vx::string_from(', code)
             self.note('String::from(&str)->vx::string_from', k_sf)
+        # `X.split(P).collect()` -> X.vx_split(P)
+        k_sp = 0
+        while True:
+            m_sp = mask(code)
+            mm_sp = re.search(r'\.\s*split\s*\(', m_sp)
+            found = False
+            for mm_sp in re.finditer(r'\.\s*split\s*\(', m_sp):
+                op = mm_sp.end() - 1
+                cp = match_close(m_sp, op)
+                tail = re.match(r'\s*\.\s*collect\s*(::\s*<[^()]*>)?\s*\(\s*\)', m_sp[cp + 1:])
+                if tail:
+                    code = code[:mm_sp.start()] + '.vx_split(' + code[op + 1:cp] + ')' + code[cp + 1 + tail.end():]
+                    k_sp += 1
+                    found = True
+                    break
+            if not found:
+                break
+        self.note('str.split(p).collect()->vx_split(p)', k_sp)
+        # `for x in E.lines() {` -> iterate the collected lines
+        k_fl = 0
+        while True:
+            m_fl = mask(code)
+            mm_fl = re.search(r'(?<![A-Za-z0-9_])for\s+([a-z_][a-z0-9_]*)\s+in\s+([A-Za-z_][A-Za-z0-9_.]*)\s*\.\s*lines\s*\(\s*\)\s*\{', m_fl)
+            if not mm_fl:
+                break
+            ob = mm_fl.end() - 1
+            cb = match_close(m_fl, ob)
+            v, e = mm_fl.group(1), mm_fl.group(2)
+            code = code[:mm_fl.start()] + '{ let lines__ = %s.vx_lines(); for %s in lines__.iter() ' % (e, v) + code[ob:cb + 1] + ' }' + code[cb + 1:]
+            k_fl += 1
+        self.note('for x in s.lines()->for x in s.vx_lines().iter()', k_fl)
+        # `for x in &V[A..B] {` -> counter loop over the same index range (the range check of the slice is kept as a call)
+        k_sl = 0
+        while True:
+            m_sl = mask(code)
+            mm_sl = re.search(r'(?<![A-Za-z0-9_])for\s+([a-z_][a-z0-9_]*)\s+in\s+&\s*([a-z_][a-z0-9_]*)\s*\[([^\[\]]*?)\.\.([^\[\]]*?)\]\s*\{', m_sl)
+            if not mm_sl:
+                break
+            ob = mm_sl.end() - 1
+            cb = match_close(m_sl, ob)
+            x, v = mm_sl.group(1), mm_sl.group(2)
+            a = code[mm_sl.start(3):mm_sl.end(3)].strip() or '0'
+            b = code[mm_sl.start(4):mm_sl.end(4)].strip() or ('%s.len()' % v)
+            inner = code[ob + 1:cb]
+            if re.search(r'(?<![A-Za-z0-9_])continue(?![A-Za-z0-9_])', mask(inner)):
+                raise ExtractError('slice loop with `continue` cannot become a counter loop')
+            rep = ('{ let lo__: usize = %s; let hi__: usize = %s; vx::check_slice_range(lo__, hi__, %s.len()); let mut i__: usize = lo__; '
+                   'while i__ < hi__ /*@auto invariant lo__ <= i__ <= hi__ <= %s.len(); decreases hi__ - i__*/ { let %s = &%s[i__]; %s\n i__ += 1; } }'
+                   % (a, b, v, v, x, v, inner))
+            code = code[:mm_sl.start()] + rep + code[cb + 1:]
+            k_sl += 1
+        self.note('for x in &v[a..b]->counter loop with the slice range check', k_sl)
+        # `O.map_or(D, |v| E)` -> match
+        k_mo = 0
+        while True:
+            m_mo = mask(code)
+            mm_mo = re.search(r'\.\s*map_or\s*\(', m_mo)
+            if not mm_mo:
+                break
+            op = mm_mo.end() - 1
+            cp = match_close(m_mo, op)
+            args = split_args(code[op + 1:cp])
+            cm = re.match(r'^\|\s*([a-z_][a-z0-9_]*)\s*\|\s*(.*)$', args[1].strip(), re.S) if len(args) == 2 else None
+            if not cm:
+                raise ExtractError('map_or of unsupported shape')
+            rs = recv_start(m_mo, mm_mo.start())
+            recv = code[rs:mm_mo.start()].strip()
+            code = code[:rs] + '(match %s { Some(%s) => %s, None => %s })' % (recv, cm.group(1), cm.group(2), args[0].strip()) + code[cp + 1:]
+            k_mo += 1
+        self.note('opt.map_or(d, |v| e)->match', k_mo)
         # `(A..=B).contains(&X)` on integers -> (A <= X && X <= B)
         k_rc = 0
         while True:
             m_rc = mask(code)
-            mm_rc = re.search(r'\(\s*([0-9]+)\s*\.\.=\s*([0-9]+)\s*\)\s*\.\s*contains\s*\(\s*&', m_rc)
+            mm_rc = re.search(r'\(\s*([0-9]+(?:\.[0-9]+)?)\s*\.\.=\s*([0-9]+(?:\.[0-9]+)?)\s*\)\s*\.\s*contains\s*\(\s*&', m_rc)
             if not mm_rc:
                 break
             op_rc = m_rc.index('(', mm_rc.end() - 3) if False else mm_rc.end() - 1
@@ -1103,7 +1195,10 @@ class Rewriter:
             op_rc = m_rc.rfind('(', 0, mm_rc.end())
             cp_rc = match_close(m_rc, op_rc)
             arg = code[mm_rc.end():cp_rc].strip()
-            code = code[:mm_rc.start()] + '(%s <= %s && %s <= %s)' % (mm_rc.group(1), arg, arg, mm_rc.group(2)) + code[cp_rc + 1:]
+            if '.' in mm_rc.group(1) or '.' in mm_rc.group(2):
+                code = code[:mm_rc.start()] + 'vx::f64_in(%s, %s, %s)' % (arg, mm_rc.group(1), mm_rc.group(2)) + code[cp_rc + 1:]
+            else:
+                code = code[:mm_rc.start()] + '(%s <= %s && %s <= %s)' % (mm_rc.group(1), arg, arg, mm_rc.group(2)) + code[cp_rc + 1:]
             k_rc += 1
         self.note('(a..=b).contains(&x)->(a <= x && x <= b)', k_rc)
         # `let x: u32 = EXPR.parse()...;`  (target type given by the let annotation) -> EXPR.vx_parse_u32()
@@ -1261,6 +1356,10 @@ METHOD_RULES = [
     (r'\.\s*chars\s*\(\s*\)\s*\.\s*nth\s*\(', 'vx_nth_char', 'rename', 'str.chars().nth->vx_nth_char'),
     (r'\.\s*chars\s*\(\s*\)\s*\.\s*last\s*\(', 'vx_last_char', 'rename', 'str.chars().last->vx_last_char'),
     (r'\.\s*lines\s*\(\s*\)\s*\.\s*collect\s*(::\s*<[^()]*>)?\s*\(', 'vx_lines', 'rename', 'str.lines().collect->vx_lines'),
+    (r'\.\s*lines\s*\(\s*\)\s*\.\s*count\s*\(\s*\)', 'vx_lines().len()', 'rename_whole', 'str.lines().count()->vx_lines().len()'),
+    (r'\.\s*lines\s*\(\s*\)\s*\.\s*map\s*\(\s*\|\s*([a-z_]+)\s*\|\s*\1\s*\.\s*to_string\s*\(\s*\)\s*\)\s*\.\s*collect\s*\(\s*\)', 'vx_lines_owned()', 'rename_whole', 'str.lines().map(to_string).collect()->vx_lines_owned'),
+    (r'\.\s*abs\s*\(\s*\)', 'vx_abs()', 'rename_whole', 'f64.abs()->vx_abs'),
+    (r'\.\s*to_digit\s*\(\s*10\s*\)', 'vx_to_digit10()', 'rename_whole', 'char.to_digit(10)->vx_to_digit10'),
     (r'\.\s*replace\s*\(\s*\x27', 'vx_replace_char', 'rename_keep_tail', 'str.replace(char,_)->vx_replace_char'),
     (r'\.\s*extend\s*\(', 'vx_extend', 'rename', 'Vec.extend(vec)->vx_extend'),
     (r'\.\s*replace\s*\(\s*"', 'vx_replace', 'rename_keep_tail', 'str.replace(&str,&str)->vx_replace'),
